@@ -539,11 +539,54 @@ def classify(prefix, run, e, env):
 
 # {{{ generators
 
+WIDE_CLASSES = ("Sum", "Product", "BitwiseOr", "BitwiseXor", "BitwiseAnd", "LogicalOr", "LogicalAnd",
+                "Min", "Max")
+_PRIMES = (2, 3, 5, 7, 11, 13, 17, 19, 23, 29, 31, 37, 41, 43, 47, 53, 59, 61, 67, 71, 73, 79)
+
+
+def wide_nary(rng, kmax=21):
+    """every n-ary node class with 1 .. kmax operands (the loops / folds over `children` of the code
+    generators must keep EVERY operand, in order, whatever the count): operands are chosen so that
+    losing, duplicating or reordering one changes the value — distinct powers of two for `+ | ^`,
+    all-ones-but-one-bit masks for `&`, distinct primes for `*`, distinct ints for min / max, one
+    truthy / falsy operand at a random place for `or` / `and` — with a variable mixed in"""
+    vs = [p.Variable(n) for n in ("i", "j", "n", "m")]
+    for cls in WIDE_CLASSES:
+        for k in range(1, kmax + 1):      # no operands at all: not an expression of the fragment
+            if cls in ("Sum", "BitwiseOr", "BitwiseXor"):
+                ops = [1 << t for t in range(k)]
+            elif cls == "BitwiseAnd":
+                full = (1 << (k + 2)) - 1
+                ops = [full ^ (1 << t) for t in range(k)]
+            elif cls == "Product":
+                ops = list(_PRIMES[:k])
+            elif cls in ("Min", "Max"):
+                ops = [3 * t - k for t in range(k)]
+                rng.shuffle(ops)
+            else:
+                neutral = 0 if cls == "LogicalOr" else 1
+                ops = [neutral] * k
+                if k:
+                    ops[rng.randrange(k)] = 7 if cls == "LogicalOr" else 0
+            if k and rng.random() < 0.5:
+                ops[rng.randrange(k)] = rng.choice(vs)
+            yield getattr(p, cls)(tuple(ops))
+    # a wide node below another one
+    for _ in range(12):
+        k1, k2 = rng.randint(5, 16), rng.randint(5, 16)
+        inner = p.Product(tuple(_PRIMES[:k2]))
+        ops = [1 << t for t in range(k1)]
+        ops[rng.randrange(k1)] = inner
+        yield p.Sum(tuple(ops))
+
+
 def gen_exprs(rng, tier, n_typed, n_syntax, cse=0.02, two=True, three=0):
     """(source tag, expression) of the Python-expressible fragment"""
     if two:
         for tag, e in two_level():
             yield "two-level", e
+        for e in wide_nary(rng):
+            yield "wide", e
     for e in three_level(rng, three):
         yield "three-level", e
     g = ExprGen(rng, malformed=0.0, floats=0.0, extra_nodes=False, cse=cse, lists=False,
